@@ -127,6 +127,19 @@ def full_loop_reset(prog, fn, field):
             src = strip(c.args[0])
             if src.kind == 'call' and src.callee_name() == 'iter_mut' and src.args and vec_base_field(prog, src.args[0]) == (field,):
                 cls = prog.closures_passed(c)
+                # `for_each(Chunk::clear)`: the reset function itself passed as the callback
+                if len(c.args) == 2 and strip(c.args[1]).kind == 'fn':
+                    fpath = strip(c.args[1]).args[0].get('path')
+                    tgt = prog.fns.get(fpath)
+                    if tgt is None:
+                        # the driver prints generic arguments in fn items: match by the path without them
+                        import re
+                        bare = re.sub(r'::<[^>]*>', '', fpath or '')
+                        for q in prog.fns.values():
+                            if re.sub(r'::<[^>]*>', '', q.path) == bare:
+                                tgt = q
+                    if tgt is not None and resets_all_vec_fields(prog, tgt) and all(b.cfg.dominates(c.point[0], x) for x in b.cfg.returns):
+                        return c, ''
                 if len(cls) == 1:
                     cb = cls[0].body
                     ok = False
